@@ -39,7 +39,9 @@ def ref_complete(text):
 
 
 STRESS_FORMS = ["(display \"(\")", "(display \")\")", "(display \"((\")", "#\\(", "#\\)", "(list #\\( 1)", "(display \";\")", "(display \"a;b\") ", "'|a(b|", "(quote |)|)",
-                "(display \"\\\"(\")", "(list \"(\" #\\) '|(| 2)", "(display (list #\\( #\\)))", "(display \"two\nlines (\")", "\"#\\\\(\"", "(car '(#\\( b))"]
+                "(display \"\\\"(\")", "(list \"(\" #\\) '|(| 2)", "(display (list #\\( #\\)))", "(display \"two\nlines (\")", "\"#\\\\(\"", "(car '(#\\( b))",
+                "(display \"first\n\nsecond\n   \nthird\")", "(display \"ends with a backslash \\\\\")", "\"\\\\\"", "(list \"a\\\\\" \"(\")", "(display \"\n\n(\n\")",
+                "(display '|two\n\nlines|)", "(display \"tab\there \\\" quote (\")"]
 
 
 def split_form(rng, text):
